@@ -36,15 +36,16 @@ SIM_PROFILES = ["C01", "C02", "C03", "C04", "C05", "C06", "C07", "C08", "C09", "
 # runs per tier (each run = one generated history; enumeration profiles execute many
 # fault plans / layouts per run)
 RUNS = {
-    "quick": {"C07": 600000, "C16": 8000, "C01": 1000000, "C02": 1000000, "C03": 1000000, "C04": 800000, "C05": 800000, "C06": 800000, "C08": 800000,
+    "quick": {"C15": 300000, "C07": 600000, "C16": 8000, "C01": 1000000, "C02": 1000000, "C03": 1000000, "C04": 800000, "C05": 800000, "C06": 800000, "C08": 800000,
               "C09": 50000, "C10": 40000, "C11": 200000, "C12": 800000, "C13": 800000, "C14": 800000},
-    "thorough": {"C07": 20000000, "C16": 150000, "C01": 30000000, "C02": 30000000, "C03": 30000000, "C04": 20000000, "C05": 20000000, "C06": 20000000, "C08": 20000000,
+    "thorough": {"C15": 10000000, "C07": 20000000, "C16": 150000, "C01": 30000000, "C02": 30000000, "C03": 30000000, "C04": 20000000, "C05": 20000000, "C06": 20000000, "C08": 20000000,
                  "C09": 400000, "C10": 300000, "C11": 3000000, "C12": 20000000, "C13": 20000000, "C14": 20000000},
 }
 
 LEVEL = {"C10": "fault_enumeration", "C11": "fault_enumeration", "C16": "fault_enumeration"}
 
 RULES = {
+    "C15": "small-history side of C15: seeded group shapes; after every call the first-time visits of all reachability traces of that call are bounded by (traces) x (objects alive); non-trivial = a group teardown happened; distinct = distinct call sequences among those",
     "C07": "seeded straight-line programs over the shared API surface (36 call kinds, values owning strong and Weak handles, leaking cycles, no adoption call) executed in lock step on cactusref and std::rc; every observation and the destructor log are compared; non-trivial = at least one value destroyed and >= 5 observations compared; distinct = distinct programs among those",
     "C16": "for each seeded base history every (destructor position, stored handle) pair is turned into two child-process scenarios: clone that handle / drop it early; the parent judges the child's exit status against the model's verdict on the target (destroyed or doomed => must abort cleanly; reachable => must succeed); non-trivial = the target was destroyed or dying; distinct = distinct (call sequence, position, slot, action)",
     "C01": "seeded histories (structured shape + random walk + drain) that respect 'recorded <= held'; non-trivial = a group or an object with adoption records was destroyed while the program still held handles that were then dereferenced and counted; distinct = distinct explicit call sequences among those",
